@@ -388,6 +388,9 @@ def operand_closed(P, res):
 
 def run(ctx, res):
     sh = ctx.shape
+    # explicit parentheses override the grouping only if the inner chain has run when the parenthesised expression counts as done
+    from . import c27 as _c27
+    _c27.done_means_value(ctx.P, res)
     two, l2 = const_array(sh, LEX, "TWO_CHAR_OPERATORS")
     one, l1 = const_array(sh, LEX, "ONE_CHAR_OPERATORS")
     two_tok, _ = const_array(sh, LEX, "TWO_CHAR_TOKENS")
